@@ -1,5 +1,5 @@
 //! unit: u09
-//! properties: C09 C03 C05 C01 C10
+//! properties: C09 C03 C05 C01 C10 C19
 //! note: also run for C01, C10: the code it constrains lies inside mechanisms those properties name (a change made there for their sake must meet these clauses too)
 //! note: narrow claim for C09 (holding back what depends on an unfinished monitor update): FundedChannel::monitor_updating_paused adds to what is held and never drops anything held earlier; monitor_updating_restored releases exactly the held forwards / failures / finalized claims and clears them, releases a revoke_and_ack or a commitment update only if one was held (none while the peer is disconnected) and clears the flags; on the ChainMonitor side an update whose persistence is in progress is recorded as pending, a completion removes exactly that update, and the final status of update_channel is Completed only if the persister completed and the channel is not post-close
 //! trusted: monitor_updating_paused is extracted whole; monitor_updating_restored, ChainMonitor::channel_monitor_updated and ChainMonitor::update_channel_internal are deep R15 slices (the statements named in the note); env: FundedChannel / ChannelContext are field skeletons; the held items are opaque; get_last_revoke_and_ack / get_last_commitment_update_for_send are external_body with unconstrained results; ChannelState is a two-flag skeleton (monitor update in progress, peer disconnected) with the macro-generated accessors' meaning; enum ChannelMonitorUpdateStatus extracted
@@ -461,6 +461,32 @@ impl ChannelManager {
 //@with
     
 //@end
+// what is handed to the persister after an update was applied (ChainMonitor::update_channel_internal): the update itself when the monitor accepted it, the WHOLE monitor when it refused it - a refused update stored on its own would be replayed on top of the stored monitor at the next start, refused again, and make the stored state unreadable
+pub struct UpdateStub { pub update_id: u64 }
+pub struct MonitorKey { pub id: u64 }
+pub struct PersistedMonitor { pub key: MonitorKey }
+impl PersistedMonitor { #[verifier::external_body] pub fn persistence_key(&self) -> (r: u64) ensures r == self.key.id { unimplemented!() } }
+pub struct PersisterStub { pub calls: Ghost<Seq<(u64, Option<u64>)>>, pub answer: ChannelMonitorUpdateStatus }
+impl PersisterStub { #[verifier::external_body] pub fn update_persisted_channel(&mut self, key: u64, update: Option<&UpdateStub>, monitor: &PersistedMonitor) -> (r: ChannelMonitorUpdateStatus)
+    ensures final(self).calls@ == old(self).calls@.push((key, if update is Some { Some(update->Some_0.update_id) } else { None })), r == old(self).answer, final(self).answer == old(self).answer { unimplemented!() } }
+pub struct ChainMon { pub persister: PersisterStub }
+impl ChainMon {
+//@extract lightning/src/chain/chainmonitor.rs :: impl ChainMonitor :: fn update_channel_internal
+//@slice R15
+    let persist_res = if update_res.is_err() { $refused:any } else { $accepted:any };
+//@with
+    fn hand_the_result_to_the_persister(&mut self, update_res: &Result<(), ()>, update: &UpdateStub, monitor: &PersistedMonitor) -> ChannelMonitorUpdateStatus {
+        let persist_res = if update_res.is_err() { $refused } else { $accepted }; persist_res }
+//@ret r
+//@ensures P C09,C19 an-accepted-update-is-persisted-as-that-update-a-refused-one-by-writing-the-whole-monitor-never-as-an-update-that-would-be-replayed
+    final(self).persister.calls@ == old(self).persister.calls@.push((monitor.key.id, if *update_res is Ok { Some(update.update_id) } else { None::<u64> })),
+    r == old(self).persister.answer,
+//@mutant refused_update_stored_as_an_incremental_update
+    monitor.persistence_key(), None, monitor,
+//@with
+    monitor.persistence_key(), Some(update), monitor,
+//@end
+}
 // a NEW monitor (ChainMonitor::watch_channel_internal, from the persist call to the end): its first persistence is recorded as pending in the holder that is stored, under the monitor's own update id
 pub struct NewMonitor { pub latest_update_id: u64 }
 pub struct MonitorHolder { pub monitor: NewMonitor, pub pending_monitor_updates: PendingList }
